@@ -180,6 +180,25 @@ pub fn generate(seed: u64, thorough: bool, sink: &mut Sink) -> Vec<String> {
       for ctx in ["{}", "x := {}", "x := {} + 1", "[1 {} 3]", "f({})", "y := 2\nx := {}\nz := 3"] { push("lexeme-prefix", ctx.replace("{}", &pre), sink); }
     }
   }
+  // Mechdown inline and block lexemes, whole, cut short, and with one character taken out (an empty link
+  // target, an empty image source, an unclosed emphasis, …), alone and inside a paragraph, a list item and a quote
+  let md_lexemes = ["[a](b)", "![a](b)", "[a]", "[^1]", "[^1]: note", "`x`", "*a*", "**a**", "_a_", "~~a~~", "$$x$$", "{{x}}", "%% c", "(1.1) t", "1. t", "- [x] t", "> q", "| a | b |", "<<x>>", "((a))",
+    "\"q\"", "!!a!!", "^a^", "[a](b){c}", "![a](b){w: 1}", "```\nx\n```", "~~~\nx\n~~~", "***", "====", "----", "@a", "#T", "[[a]]", "http://a.b", "<a@b.c>"];
+  for lx in md_lexemes.iter() {
+    let cs: Vec<char> = lx.chars().collect();
+    let mut variants: Vec<String> = vec![lx.to_string()];
+    for k in 1..cs.len() { variants.push(cs[..k].iter().collect()); }
+    for k in 0..cs.len() { let mut v = cs.clone(); v.remove(k); variants.push(v.iter().collect()); }
+    for v in variants {
+      for ctx in ["{}", "See {} here.", "- item {}", "> {}", "Title\n=====\n\n{}\n\nx := 1"] { push("markup-lexeme", ctx.replace("{}", &v), sink); }
+    }
+  }
+  // Mech lexemes with one character taken out
+  for lx in lexemes.iter() {
+    let cs: Vec<char> = lx.chars().collect();
+    if cs.len() < 3 { continue; }
+    for k in 0..cs.len() { let mut v = cs.clone(); v.remove(k); let t: String = v.iter().collect(); push("lexeme-deletion", format!("x := {}", t), sink); push("lexeme-deletion", t, sink); }
+  }
   // (3) repository files and their prefixes
   let mut files: Vec<std::path::PathBuf> = vec![];
   let mut stack = vec![std::path::PathBuf::from("/repo/docs"), std::path::PathBuf::from("/repo/examples")];
